@@ -9,8 +9,8 @@ from drv import Circuit, RegCircuit
 def plan(ctx):
     tier, seed = ctx["tier"], ctx["seed"]
     items = []
-    pools = [("general", 100), ("panic", 60), ("mutation", 40)] if tier == "quick" else \
-        [("general", 500), ("panic", 300), ("mutation", 200), ("wide", 300)]
+    pools = [("general", 200), ("panic", 100), ("mutation", 100)] if tier == "quick" else \
+        [("general", 1500), ("panic", 800), ("mutation", 700), ("wide", 1000)]
     for profile, n in pools:
         for i in range(0, n, 10):
             items.append({"kind": "programs", "profile": profile, "seeds": [seed * 100000 + 80000 + i + k for k in range(10)],
